@@ -332,7 +332,7 @@ pub fn check_c06(plan: &Plan, out: &Outcome, r: &mut Report) {
         // measured maximum gap after stabilisation
         let mut prev = start;
         for t in growth.iter().filter(|t| **t >= start) {
-            max_gap = max_gap.max(t - prev);
+            max_gap = max_gap.max(t.saturating_sub(prev));
             prev = *t;
         }
         max_gap = max_gap.max(plan.duration_ms.saturating_sub(prev).min(w * 100));
@@ -395,7 +395,7 @@ pub fn check_c07(plan: &Plan, out: &Outcome, r: &mut Report) {
         r.count("C07.recoveries_checked", 1);
         if target > before + 1 {
             r.sit("C07:gap_of_2plus_blocks");
-            r.max("max.C07.rounds_missed", target - before);
+            r.max("max.C07.rounds_missed", target.saturating_sub(before));
         }
         if got < target {
             r.violate(
